@@ -688,7 +688,7 @@ Example C02_exit_example :
                        && list_eqb cst_eqb (t_calls t) [Ret Nil; Ret ErrNoSuchJob]
                        && list_eqb N.eqb (t_starts t) [2]) (finals exit_example) = true
   /\ (let ob o := {| ob_out := o; ob_listed := o_exists o; ob_hung := false; ob_running := 0; ob_dup := None;
-                      ob_insts := [2]; ob_foreign := [false; false]; ob_count := 1 |} in
+                      ob_insts := [2]; ob_foreign := [false; false]; ob_byprefix := [false; false]; ob_sibs := []; ob_count := 1 |} in
       after_exit_ok exit_example
         (ob {| o_calls := [Ret Nil; Ret ErrNoSuchJob]; o_starts := [2]; o_overlap := 1; o_exists := false;
                o_reuse := Nil; o_reuse_runs := 1; o_panic := false |}) = true
